@@ -3,15 +3,17 @@
 # revert, record detection in detect.json
 set -u
 D=/verif/seeded/$1; T=${2:-quick}
+# SEED_VERIF (default /verif): the check tree to run, e.g. an older snapshot; SEED_TAG: suffix for the result files
+V=${SEED_VERIF:-/verif}; TAG=${SEED_TAG:-}
 P=$(echo $1 | cut -d- -f1)
 cd /repo || exit 2
 if ! git diff --quiet; then echo "/repo is dirty"; exit 2; fi
 git apply $D/patch.diff || { echo "patch does not apply"; exit 2; }
-cd /verif; ./check $P $T > $D/check_$T.out 2> $D/check_$T.err; rc=$?
+cd $V; ./check $P $T > $D/check_$T$TAG.out 2> $D/check_$T$TAG.err; rc=$?
 git -C /repo checkout -- . 
-nv=$(grep -c '^VIOLATION' $D/check_$T.out)
-first=$(grep -m1 -A1 '^VIOLATION' $D/check_$T.out | tail -1 | cut -c1-400)
-python3 - "$D" "$T" "$rc" "$nv" "$first" <<'PY'
+nv=$(grep -c '^VIOLATION' $D/check_$T$TAG.out)
+first=$(grep -m1 -A1 '^VIOLATION' $D/check_$T$TAG.out | tail -1 | cut -c1-400)
+python3 - "$D" "$T$TAG" "$rc" "$nv" "$first" <<'PY'
 import json,sys
 d,t,rc,nv,first=sys.argv[1:]
 json.dump({"tier":t,"exit_code":int(rc),"violation_lines":int(nv),"detected":int(rc)==1 and int(nv)>0,"first_violation":first},open(f"{d}/detect_{t}.json","w"),indent=1)
